@@ -68,6 +68,7 @@ type FnEnc struct {
 	viewElem map[string]bool
 	elemwise map[*ssa.Alloc]bool
 	escaped  map[*ssa.Alloc]bool
+	noRestore map[*ssa.Alloc]bool
 	escOut   map[int]map[*ssa.Alloc]bool
 	curPos   token.Pos
 	parent   *FnEnc // inlining caller (its unescaped locals survive our havocs too)
@@ -627,8 +628,28 @@ func (f *FnEnc) enterBlock(b *ssa.BasicBlock, entryReach Term, entrySt *State) {
 	}
 	// 2. havoc what the loop modifies
 	ws := f.loopWrites(li)
+	// Stores of the loop body into a local object that was allocated BEFORE the loop (a struct or
+	// array the function is filling in, on the stack or on the heap): the write-set analysis files
+	// them under "objects the writer allocated itself" (or ignores stack objects) because callers
+	// cannot see them - but at the loop head they are ordinary writes: their components are havocked
+	// and the object is not restored to its pre-loop content. Objects allocated inside the body stay
+	// "fresh only" (everything older is preserved).
+	f.noRestore = map[*ssa.Alloc]bool{}
+	for b := range li.body {
+		for _, ins := range b.Instrs {
+			if st, ok := ins.(*ssa.Store); ok {
+				if a := rootAllocOf(st.Addr); a != nil && !li.body[a.Block()] {
+					f.noRestore[a] = true
+					if !ws.all {
+						e.storeCompNames(st.Addr, ws.names)
+					}
+				}
+			}
+		}
+	}
 	_ = f.st
 	f.st = f.havocWrites(ws)
+	f.noRestore = nil
 	if implicitFrame {
 		for _, g := range f.frameGoals(f.topVars(), f.st) {
 			f.assume(g.goal)
@@ -700,6 +721,23 @@ type writeSet struct {
 	allPlain bool          // some source writes everything without exception
 	watch    map[string]bool // components whose (non-fresh) writers are to be listed
 	sites    *[]wsSite
+}
+
+// rootAlloc: the local allocation an address points into (through field and index steps), if any.
+func rootAlloc(v ssa.Value) *ssa.Alloc {
+	for i := 0; i < 16 && v != nil; i++ {
+		switch x := v.(type) {
+		case *ssa.Alloc:
+			return x
+		case *ssa.FieldAddr:
+			v = x.X
+		case *ssa.IndexAddr:
+			v = x.X
+		default:
+			return nil
+		}
+	}
+	return nil
 }
 
 func (f *FnEnc) loopWrites(li *loopInfo) writeSet {
@@ -1228,6 +1266,22 @@ func calleeKey(c *ssa.CallCommon) string {
 	}
 	if callee := c.StaticCallee(); callee != nil {
 		return fnDisplayName(callee)
+	}
+	// a call through a function variable of the source (a closure kept in a local that another
+	// closure captured, a function parameter): named after the variable
+	v := c.Value
+	if u, ok := v.(*ssa.UnOp); ok && u.Op == token.MUL {
+		v = u.X
+	}
+	switch x := v.(type) {
+	case *ssa.FreeVar:
+		return "var." + x.Name()
+	case *ssa.Alloc:
+		if x.Comment != "" {
+			return "var." + x.Comment
+		}
+	case *ssa.Parameter:
+		return "var." + x.Name()
 	}
 	return ""
 }
